@@ -531,4 +531,59 @@ theorem isSingle_fileId {T : FileType} (h : TableOK T) : isSingle T mesgNumFileI
 
 
 end
+/-! ### the shape of `toFIT (build …)` (used by the C14 theorems) -/
+section
+open Generated
+
+def hasFileId (msgs : List Msg) : Bool := msgs.any (fun m => m.num == mesgNumFileId)
+
+/-- shape of the output: exactly one file_id, the developer_data_id messages, the field_description messages, the rest -/
+def OutputShape (T : FileType) (msgs : List Msg) (fid : Msg) (rest : List Msg) : Prop :=
+  toFIT T (build T msgs) =
+    fid :: ((build T msgs).filter (fun m => m.num == mesgNumDeveloperDataId) ++
+      ((build T msgs).filter (fun m => m.num == mesgNumFieldDescription) ++ rest))
+
+/-- the part of the emission that follows the prefix (typed slots in table order, each in arrival order, then the
+unrelated messages in arrival order) -/
+def restEmission (T : FileType) (msgs : List Msg) : List Msg := (restGroups T (build T msgs)).flatten
+
+theorem output_shape {T : FileType} (hok : TableOK T) (msgs : List Msg) :
+    ∃ fid, fid.num = mesgNumFileId ∧ OutputShape T msgs fid
+      (((restGroups T (build T msgs)).take (T.sortFrom - 3)).flatten ++
+        sortStable ((restGroups T (build T msgs)).drop (T.sortFrom - 3)).flatten) := by
+  obtain ⟨s0, s1, s2, rest, hsl, hsplit⟩ := toFIT_split hok (build T msgs)
+  obtain ⟨s0', s1', s2', rest', hsl', h0n, h0k, h1n, h1k, h2n, h2k, _⟩ := tableOK_slots hok
+  rw [hsl] at hsl'
+  obtain ⟨rfl, rfl, rfl, rfl⟩ : s0 = s0' ∧ s1 = s1' ∧ s2 = s2' ∧ rest = rest' := by
+    simp only [List.cons.injEq] at hsl'; exact ⟨hsl'.1, hsl'.2.1, hsl'.2.2.1, hsl'.2.2.2⟩
+  have e1 : slotMsgs T (build T msgs) s1 = (build T msgs).filter (fun m => m.num == mesgNumDeveloperDataId) := by
+    rw [slotMsgs_of_not_value _ _ _ (by rw [h1k]; decide), h1n]
+  have e2 : slotMsgs T (build T msgs) s2 = (build T msgs).filter (fun m => m.num == mesgNumFieldDescription) := by
+    rw [slotMsgs_of_not_value _ _ _ (by rw [h2k]; decide), h2n]
+  -- the file_id group has exactly one element
+  have e0 : ∃ fid, fid.num = mesgNumFileId ∧ slotMsgs T (build T msgs) s0 = [fid] := by
+    by_cases hany : (build T msgs).any (fun m => m.num == s0.num) = true
+    · rw [slotMsgs_of_any _ _ _ hany]
+      have hle := keepLast_single_le_one T mesgNumFileId (isSingle_fileId hok) (msgs.map (normT T))
+      rw [← build_eq_keepLast hok, ← h0n] at hle
+      obtain ⟨a, ha, hp⟩ := List.any_eq_true.mp hany
+      have hmem : a ∈ (build T msgs).filter (fun m => m.num == s0.num) := List.mem_filter.mpr ⟨ha, hp⟩
+      match hl : (build T msgs).filter (fun m => m.num == s0.num) with
+      | [] => rw [hl] at hmem; cases hmem
+      | [x] =>
+        refine ⟨x, ?_, hl⟩
+        have : x ∈ (build T msgs).filter (fun m => m.num == s0.num) := by rw [hl]; simp
+        rw [← h0n]; simpa using (List.mem_filter.mp this).2
+      | _ :: _ :: _ => rw [hl] at hle; simp at hle
+    · have hany' : (build T msgs).any (fun m => m.num == s0.num) = false := by simpa using hany
+      obtain ⟨hd, _⟩ := slotMsgs_default T _ s0 h0k hany'
+      exact ⟨defaultMsg T s0.num, h0n, hd⟩
+  obtain ⟨fid, hfn, hf⟩ := e0
+  refine ⟨fid, hfn, ?_⟩
+  unfold OutputShape
+  rw [hsplit, hf, e1, e2]
+  rfl
+
+
+end
 end Fit.FileDef
